@@ -27,7 +27,7 @@ func init() {
 		Required:      []string{"grid:literal", "grid:number()", "grid:arith", "grid:mod", "grid:string()", "rand:string()"},
 		Families: []Family{
 			witnessFamily("C08"),
-			{Name: "grid", N: func(string) int { return 5 }, Run: c08Grid},
+			{Name: "grid", N: func(string) int { return 6 }, Run: c08Grid},
 			{Name: "sums", N: func(string) int { return len(c08SumValues)*len(c08SumCounts) + 400 }, Run: c08Sums},
 			{Name: "big", N: bigN("C08"), Run: bigRun("C08")},
 			{Name: "rand", N: tierN(250000, 10000000), Run: c08Random},
@@ -106,6 +106,20 @@ func c08Grid(c *Case) {
 			for _, f := range []string{"floor", "ceiling"} {
 				if !check(f+"("+a+")", "grid:arith") || !check(f+"(-("+a+"))", "grid:arith") || !check(f+"("+a+" div 3)", "grid:arith") {
 					return
+				}
+			}
+		}
+	case 5: // the argument-less forms stand for the CONTEXT NODE, whatever its kind: number() = number(.) at elements, attributes, text, comments, the root
+		for _, dd := range []*xdoc.Doc{d, valueDoc(c.GShared("gdoc", 1)), valueDoc(c.GShared("gdoc", 2))} {
+			for _, n := range dd.Nodes {
+				for _, s := range []string{"number()", "number() + 1", "-number()", "floor(number() div 2)", "number() * 2 - number(.)", "number() mod 4", "ceiling(number())", "string-length(string())", "number(string())", "sum(.)"} {
+					if s == "sum(.)" && math.IsNaN(xref.StrToNumber(n.StringValue())) {
+						continue // sum() over a non-numeric node is outside the quantifier
+					}
+					if _, ok := c.scalarCheck(mustParse(s), n, "ABORT"); !ok {
+						return
+					}
+					c.Count("grid:context-node-forms")
 				}
 			}
 		}
@@ -217,6 +231,7 @@ func init() {
 			{Name: "pairs", N: func(string) int { return len(xgen.StrAlphabet) }, Run: c09Pairs},
 			{Name: "ascii", N: func(string) int { return 95 }, Run: c09ASCII},
 			{Name: "long", N: func(string) int { return 6 }, Run: c09Long},
+			{Name: "ctxforms", N: func(string) int { return 12 }, Run: c09CtxForms},
 			{Name: "big", N: bigN("C09"), Run: bigRun("C09")},
 			{Name: "rand", N: tierN(250000, 10000000), Run: c09Random},
 		},
@@ -565,4 +580,24 @@ func sumOrderIndependent(fs []float64) bool {
 		return true
 	}
 	return rec(0)
+}
+
+// c09CtxForms: string(), normalize-space() and the other argument-less forms stand for the context node whatever
+// its kind (element, attribute, text, comment, root) - evaluated at EVERY node of a dozen documents.
+func c09CtxForms(c *Case) {
+	d := valueDoc(c.GShared("cdoc", int64(c.Index)))
+	if c.Index%3 == 2 {
+		d = c.GShared("cdoc", int64(c.Index)).NSTree(false)
+	}
+	for _, n := range d.Nodes {
+		for _, s := range []string{"string()", "normalize-space()", "concat(string(), '|', normalize-space())", "string-length(string())", "starts-with(string(), '1')", "contains(normalize-space(), ' ')",
+			"substring(string(), 2)", "translate(string(), '0123456789', '##########')", "string() = string(.)", "normalize-space() = normalize-space(.)", "concat(name(), '=', string())", "lower-case(string())"} {
+			if _, ok := c.scalarCheck(mustParse(s), n, "ABORT"); !ok {
+				return
+			}
+			c.Count("ctxforms")
+		}
+		c.Nontrivial(fmt.Sprintf("ctxforms|%d|%d", c.Index, n.Ord))
+	}
+	c.Sample(map[string]interface{}{"family": "ctxforms", "doc_nodes": len(d.Nodes)})
 }
